@@ -17,6 +17,9 @@ def build(ctx):
 def bounded(ctx):
     from bounded import includes
     includes.run_all(ctx, ctx.tier, props=('C14',))
+    ctx.task('bounded.tasks:split_task', 'mix')
+    ctx.task('bounded.tasks:split_task', 'rand')
+    ctx.task('bounded.tasks:split_task', 'pseudo')
 
 
 def explanation(ctx):
